@@ -206,6 +206,7 @@ func checkWriteBatch(c *an.Ctx, id string) {
 				}
 			})
 			c.Check(okRec, id, "batch-cleanup-error-recorded-iff-failed:"+an.FuncName(fn), "the deletion's error is extended with the commit error exactly when the commit failed", deferred, doneCall, "", nil)
+			checkCommitFailureNoProgress(c, id, fn, deferred, doneCall)
 		}
 	}
 	c.Min(id, "functions opening a write batch", nCallers, 2)
